@@ -606,6 +606,23 @@ impl ReservedTransportParameter {
     const MAX_PAYLOAD_LEN: usize = 16;
 }
 
+#[cfg(quinn_rs_quinn_verif)]
+impl ReservedTransportParameter {
+    /// Verification hook accessor: a reserved parameter with a chosen id and payload
+    pub(crate) fn verif_new(id: VarInt, payload: &[u8]) -> Option<Self> {
+        if payload.len() > Self::MAX_PAYLOAD_LEN {
+            return None;
+        }
+        let mut buf = [0u8; Self::MAX_PAYLOAD_LEN];
+        buf[..payload.len()].copy_from_slice(payload);
+        Some(Self {
+            id,
+            payload: buf,
+            payload_len: payload.len(),
+        })
+    }
+}
+
 #[repr(u64)]
 #[derive(Debug, Clone, Copy, PartialEq, Eq)]
 pub(crate) enum TransportParameterId {
